@@ -83,7 +83,6 @@ func main() {
 	thorough := f.Tier == "thorough"
 	items := buildItems(thorough)
 	r.Extra["work_items_total"] = int64(len(items))
-	seen := core.NewSeen()
 	sk.r.Extra["tolerance"] = "formula: powPrecision(1e-8)*2*max(reserve,exact)+1 unit; per-share: 2*powPrecision (+ explicitly counted user-favourable rounding units); stableswap swap invariant: none (exact)"
 	for i, it := range items {
 		if !f.Mine(i) {
@@ -105,10 +104,7 @@ func main() {
 			fmt.Fprintf(os.Stderr, "slow item %s: %.2fs\n", it.name, time.Since(t0).Seconds())
 		}
 	}
-	_ = seen
-	if seqSeen != nil {
-		seqSeen.Dump(f.HashOut)
-	}
+	allSeen.Dump(f.HashOut)
 	r.DepthCompleted = seqDepth(thorough)
 	keys := make([]string, 0, len(r.Rejected))
 	for k := range r.Rejected {
